@@ -91,7 +91,7 @@ class Report:
                     self.known.append((key, kf.get('what', what)))
                 return
         os.makedirs(os.path.join(EVID, 'replay'), exist_ok=True)
-        path = os.path.join(EVID, 'replay', f'{self.pid}-{len(self.violations)}.json')
+        path = os.path.join(EVID, 'replay', f'{getattr(self, "vprefix", self.pid)}-{len(self.violations)}.json')
         json.dump(dict(property=self.pid, key=key, what=what, witness=replay_obj), open(path, 'w'), indent=1, default=str)
         self.violations.append((key, what, path))
 
